@@ -168,6 +168,8 @@ def And(*xs):
         return False
     if not xs:
         return True
+    if len(xs) == 1 and is_sym(xs[0]) and z3.is_bool(xs[0]):
+        return xs[0]
     if any(is_sym(x) for x in xs):
         return z3.And(*[to_z3(x) for x in xs])
     return all(xs)
